@@ -70,6 +70,17 @@ func (c *Config) MarshalBinary() ([]byte, error) {
 	})
 }
 
+// unmarshal decodes data into v. The decoder panics on some malformed inputs (for example null where v
+// holds a non-nil interface value); such a panic is reported as an error.
+func unmarshal(data []byte, v interface{}) (err error) {
+	defer func() {
+		if r := recover(); r != nil {
+			err = fmt.Errorf("malformed data: %v", r)
+		}
+	}()
+	return cbor.Unmarshal(data, v)
+}
+
 func (c *Config) UnmarshalBinary(data []byte) error {
 	if c.Group == nil {
 		return errors.New("config must be initialized using EmptyConfig")
@@ -78,11 +89,14 @@ func (c *Config) UnmarshalBinary(data []byte) error {
 		ECDSA:   c.Group.NewScalar(),
 		ElGamal: c.Group.NewScalar(),
 	}
-	if err := cbor.Unmarshal(data, &cm); err != nil {
+	if err := unmarshal(data, cm); err != nil {
 		return fmt.Errorf("config: %w", err)
 	}
 
 	// check ECDSA, ElGamal
+	if cm.ECDSA == nil || cm.ElGamal == nil {
+		return errors.New("config: ECDSA or ElGamal secret key is missing")
+	}
 	if cm.ECDSA.IsZero() || cm.ElGamal.IsZero() {
 		return errors.New("config: ECDSA or ElGamal secret key is zero")
 	}
@@ -103,8 +117,11 @@ func (c *Config) UnmarshalBinary(data []byte) error {
 			ECDSA:   c.Group.NewPoint(),
 			ElGamal: c.Group.NewPoint(),
 		}
-		if err := cbor.Unmarshal(pm, p); err != nil {
+		if err := unmarshal(pm, p); err != nil {
 			return fmt.Errorf("config: party %s: %w", p.ID, err)
+		}
+		if p.ECDSA == nil || p.ElGamal == nil {
+			return fmt.Errorf("config: party %s: ECDSA or ElGamal public key is missing", p.ID)
 		}
 		if _, ok := ps[p.ID]; ok {
 			return fmt.Errorf("config: party %s: duplicate entry", p.ID)
